@@ -6,7 +6,7 @@ MODEL_DEPS = ["Base/Bytes.v", "Base/GoSem.v", "Gen/FromGo.v", "DM/Value.v", "Cod
 DRIVER = "c17_driver"
 HARNESS = "c17"
 COUNTS = {"quick": 900, "thorough": 30000}
-HARNESS_TIMEOUT = {"quick": 900, "thorough": 3600}
+HARNESS_TIMEOUT = {"quick": 2400, "thorough": 7200}
 DESIGN_REF = "DESIGN.md §4 C17"
 TECHNIQUE = ("Coq proof (refinement of a finite map by heap/file-system state machines over all histories; path "
              "injectivity and containment; refutation lemmas for the pinned code) + gotrans regeneration of the sharding "
